@@ -161,7 +161,8 @@ def participant_record(b, pspec):
     spec = {"seq": pre, "id": b.id, "name": pspec.get("name", b.id),
             "feats": [{"type": f["type"], "parts": arcs_to_parts(f["arcs"], b.n),
                        "quals": f["quals"], "cite": f.get("cite")} for f in pspec.get("feats") or []],
-            "ann": {"topology": "circular", "molecule_type": "DNA"}}
+            "ann": [{"topology": "circular", "molecule_type": "DNA"}, {}, {"molecule_type": "DNA"},
+                    {"topology": "Circular", "comment": "hand-made"}][pspec.get("ann_style", 0) % 4]}
     if pspec.get("refs") is not None:
         spec["refs"] = [REF_POOL[i % len(REF_POOL)] for i in pspec["refs"]]
     r = rec.build(spec)
@@ -192,6 +193,8 @@ def annotated_assembly(draw, max_chain=4, max_seg=30, with_refs=False, enzyme=No
             p["refs"] = refs
             nrefs = len(refs)
         p["feats"] = draw(feature_table(b.n, A0, L, prefix=b.id + "_", nrefs=nrefs))
+        # hand-made records often lack the topology key (or spell it differently)
+        p["ann_style"] = draw(st.integers(0, 3))
     if draw(st.integers(0, 2)) == 0:
         # participants inspected (is_valid, overhangs, target) before the call
         spec["touch"] = draw(st.lists(st.integers(0, len(bms)), min_size=1, max_size=3))
